@@ -31,7 +31,7 @@ def rename(name, rho):
 
 def unrename_text(text, rho, mods):
     inv = {rename(m, rho): m for m in mods}
-    return re.sub(r'"([^"]+)"', lambda m: '"' + inv.get(m.group(1), "?" + m.group(1)) + '"', text or "")
+    return re.sub(r'"([^"]+)"', lambda m: '"' + inv.get(m.group(1), m.group(1)) + '"', text or "")
 
 
 def _c14_chunk(args):
